@@ -83,6 +83,15 @@ def atom_lines(logic, rng, n):
                 t = mk("uf:h", [v])
             parts.append(t if c == 1 else mk("*", [const(c), t]))
         return parts[0] if len(parts) == 1 else mk("+", parts)
+    if uf and n >= 5 and rng.random() < 0.5:
+        # a congruence skeleton: u0 = u1, f(u0) = u2 and an atom over f(u1) - when that one is declared only after the
+        # first two are asserted, its term enters an Egraph in which a congruent term already exists
+        fu0, fu1 = mk("uf:f", [us[0]]), mk("uf:f", [us[1]])
+        ids.append(mk("=", [us[0], us[1]]))
+        ids.append(mk("=", [fu0, us[2]]))
+        ids.append(rng.choice([mk("=", [fu1, fu0]), mk("=", [fu1, us[2]]), mk("uf:P", [fu1])]))
+        if rng.random() < 0.5:
+            ids.append(mk("uf:P", [fu0]))
     tries = 0
     while len(ids) < n and tries < 10 * n:
         tries += 1
@@ -93,8 +102,12 @@ def atom_lines(logic, rng, n):
             c = rng.randint(-1, 1) if S == "Int" else rng.choice([-1, 0, 1, "1/2"])
             ids.append(mk(op, [lin(), const(c)]))
         else:
-            if rng.random() < 0.7:
+            x = rng.random()
+            if x < 0.6:
                 ids.append(mk("=", [uterm(), uterm()]))
+            elif x < 0.8:
+                # a distinction over three terms: the Egraph marks the classes of its arguments
+                ids.append(mk("distinct", [uterm(), uterm(), uterm(0)]))
             else:
                 ids.append(mk("uf:P", [uterm(1)]))
     return L, ids
@@ -175,7 +188,7 @@ def tlc_sequences():
     _seqs_cache = out
     return out
 
-def play(logic, setup, atoms, ops, tb, rd, hints_for, stats, exact, rng_local=random):
+def play(logic, setup, atoms, ops, tb, rd, hints_for, stats, exact, rng_local=random, lazy_declare=False):
     """run one operation sequence; ops: list of ("assert", k, pol) | ("check", complete) | ("pop", n)"""
     cv = Conv()
     evs = []
@@ -184,11 +197,20 @@ def play(logic, setup, atoms, ops, tb, rd, hints_for, stats, exact, rng_local=ra
         for ln in setup:
             cv.ask(ln)
         info = {}
-        for k, tid in enumerate(atoms):
-            a = cv.ask("atom %d" % tid)
+        # some sequences declare an atom only when it is first asserted (as happens to atoms of lemmas and splits, which
+        # reach the solvers in the middle of a search); the others declare everything up front
+        lazy = bool(lazy_declare)
+        def declare(k):
+            a = cv.ask("atom %d" % atoms[k])
             if a.get("op") == "atom" and a["usable"]:
                 t = rd.read(a["a"])
-                info[k] = (tid, t, tb.app("not", [t]), a["neg"])
+                info[k] = (atoms[k], t, tb.app("not", [t]), a["neg"])
+            else:
+                unusable.add(k)
+        unusable = set()
+        if not lazy:
+            for k in range(len(atoms)):
+                declare(k)
         stack = []          # (k, s) as the solver sees it (after normalisation)
         oklen = [0]         # prefix of the stack that passed a check
         cdcl_like = rng_local.random() < 0.85
@@ -234,8 +256,17 @@ def play(logic, setup, atoms, ops, tb, rd, hints_for, stats, exact, rng_local=ra
         for op in ops:
             if op[0] == "assert":
                 k, pol = op[1], op[2]
+                late = False
+                if lazy and k not in info and k not in unusable and 0 <= k < len(atoms):
+                    if pending_bad is not None:
+                        force_pop()
+                    late = len(stack) > 0
+                    declare(k)
                 if k not in info or any(info[k][1] == info[kk][1] for kk, _ in stack):
                     continue        # an atom is on the trail at most once
+                if tb.rec(info[k][1]).get("op") == "distinct":
+                    # the Egraph takes distinctions only positively (negated ones are expanded by the preprocessor)
+                    pol = not info[k][3]
                 if pending_bad is not None:
                     force_pop()
                     if any(info[k][1] == info[kk][1] for kk, _ in stack):
@@ -247,7 +278,7 @@ def play(logic, setup, atoms, ops, tb, rd, hints_for, stats, exact, rng_local=ra
                 ids = litset_ids(lits)
                 mon = small(ids)
                 ev = lit_rec(k, s)
-                ev.update({"e": "assert", "ok": bool(r["res"]), "h": hints_for(ids) if (mon and not r["res"]) else [], "mon": mon})
+                ev.update({"e": "assert", "ok": bool(r["res"]), "h": hints_for(ids) if (mon and not r["res"]) else [], "mon": mon, "late": late})
                 evs.append(ev)
                 stats["asserts"] = stats.get("asserts", 0) + 1
                 if not r["res"]:
@@ -334,12 +365,15 @@ def b_tsolver(job):
     else:
         for _ in range(job.get("nseq", 6)):
             ops = []
+            if rng.random() < 0.4:
+                ops += [("assert", 0, True), ("assert", 1, True), ("check", True), ("assert", 2, rng.random() < 0.5),
+                        ("check", True)] + ([("assert", 3, rng.random() < 0.5), ("check", True)] if rng.random() < 0.5 else [])
             for _ in range(rng.randint(20, 50)):
                 x = rng.random()
                 if x < 0.5: ops.append(("assert", rng.randrange(len(atoms)), rng.random() < 0.5))
                 elif x < 0.8: ops.append(("check", rng.random() < 0.8))
                 else: ops.append(("pop", rng.randint(1, 3)))
-            ev, lg = play(logic, setup, atoms, ops, tb, rd, hints_for, stats, exact, rng)
+            ev, lg = play(logic, setup, atoms, ops, tb, rd, hints_for, stats, exact, rng, lazy_declare=rng.random() < 0.3)
             events += [{"e": "Reset"}] + ev
             logs.append(lg); nseq += 1
     tb.true(); tb.false()
